@@ -425,6 +425,9 @@ func generate(cfg *hx.Config, emit func(kind string, ops []hx.T, tags []string))
 		hx.C("OStart", self, []any{"LFail"}), hx.C("OLeaseLost", 0), hx.C("OStart", nd(0, true, 1, -2), []any{}), hx.C("OStart", nd(0, true, 1, -1, svc(1, 1)), lnodes(n1)), batch([]hx.T{del(1)})},
 		[]string{"start-fails", "addr-nonhost"})
 
+	// 5b. scripted lives: start-up, re-watch / re-listing, shutdown under an explicit schedule
+	generateBoot(cfg, emit)
+
 	// 6. etcd.Node round trips and the self cluster (cluster disabled)
 	nDirect := 8
 	if thorough {
@@ -457,4 +460,274 @@ func generate(cfg *hx.Config, emit func(kind string, ops []hx.T, tags []string))
 		a, b := randView(r, tags), randView(r, tags)
 		emit("stress-measurement", []hx.T{hx.C("OStress", hx.Norm(a), hx.Norm(b))}, tags.list())
 	}
+}
+
+// ---------------------------------------------------------------- scripted lives (boot.go)
+
+func amut(m hx.T) hx.T       { return hx.C("AMut", m) }
+func mput(n hx.T) hx.T       { return amut(hx.C("MPut", n)) }
+func mdel(k int64) hx.T      { return amut(hx.C("MDel", k)) }
+func deliver(n int64) hx.T   { return hx.C("ADeliver", n) }
+func watchFail(v int64) hx.T { return hx.C("AWatchFail", v) }
+
+var (
+	aGetEval  = hx.C("AGetEval")
+	aGetResp  = hx.C("AGetResp")
+	aGetFail  = hx.C("AGetFail")
+	aWatch    = hx.C("AWatch")
+	aCompact  = hx.C("ACompact")
+	aShutdown = hx.C("AShutdown")
+)
+
+func bootOp(self hx.T, member bool, acts []hx.T) hx.T {
+	return hx.C("OBoot", self, member, hx.Norm(acts))
+}
+
+func cat(parts ...[]hx.T) []hx.T {
+	var out []hx.T
+	for _, p := range parts {
+		out = append(out, p...)
+	}
+	return out
+}
+
+// all ways to put the mutations `seq` (in this order) into `slots` consecutive slots
+func distribute(seq []hx.T, slots int, f func(parts [][]hx.T)) {
+	parts := make([][]hx.T, slots)
+	var rec func(i, from int)
+	rec = func(i, from int) {
+		if i == len(seq) {
+			cp := make([][]hx.T, slots)
+			for k := range parts {
+				cp[k] = append([]hx.T{}, parts[k]...)
+			}
+			f(cp)
+			return
+		}
+		for s := from; s < slots; s++ {
+			parts[s] = append(parts[s], seq[i])
+			rec(i+1, s)
+			parts[s] = parts[s][:len(parts[s])-1]
+		}
+	}
+	rec(0, 0)
+}
+
+// every sequence over alpha of length <= L
+func sequences(alpha []hx.T, L int, f func(seq []hx.T)) {
+	cur := []hx.T{}
+	var rec func()
+	rec = func() {
+		f(append([]hx.T{}, cur...))
+		if len(cur) == L {
+			return
+		}
+		for _, a := range alpha {
+			cur = append(cur, a)
+			rec()
+			cur = cur[:len(cur)-1]
+		}
+	}
+	rec()
+}
+
+// the start-up skeleton.  The early AWatch / ADeliver are no-ops for a provider that lists first and
+// watches afterwards; they are what lets a provider that watches first meet its events early.
+//
+//	AWatch  <s0>  AGetEval  <s1>  ADeliver  AGetResp  <s2>  AWatch  <s3>  ADeliver 1  ADeliver 9
+func startupScript(parts [][]hx.T) []hx.T {
+	return cat([]hx.T{aWatch}, parts[0], []hx.T{aGetEval}, parts[1], []hx.T{deliver(9), aGetResp}, parts[2],
+		[]hx.T{aWatch}, parts[3], []hx.T{deliver(1), deliver(9)})
+}
+
+func randMut(r *rand.Rand, selfID int64, tags tagset) hx.T {
+	k := r.Int63n(nNodes)
+	if r.Intn(100) < 62 {
+		if k == selfID {
+			tags["self-put"] = true
+		}
+		return mput(randNode(r, k, tags))
+	}
+	if k == selfID {
+		tags["self-del"] = true
+	}
+	return mdel(k)
+}
+
+// a random schedule: any action at any time (what is not possible is a no-op)
+func randScript(r *rand.Rand, selfID int64, tags tagset) []hx.T {
+	var acts []hx.T
+	n := 6 + r.Intn(20)
+	if r.Intn(10) < 7 { // most lives get started early
+		for i := r.Intn(3); i > 0; i-- {
+			acts = append(acts, randMut(r, selfID, tags))
+		}
+		acts = append(acts, aGetEval)
+		if r.Intn(3) == 0 {
+			acts = append(acts, randMut(r, selfID, tags))
+		}
+		acts = append(acts, aGetResp)
+	}
+	for len(acts) < n {
+		switch p := r.Intn(100); {
+		case p < 30:
+			acts = append(acts, randMut(r, selfID, tags))
+		case p < 38:
+			acts = append(acts, aGetEval)
+		case p < 48:
+			acts = append(acts, aGetResp)
+		case p < 50:
+			tags["get-fail"] = true
+			acts = append(acts, aGetFail)
+		case p < 64:
+			acts = append(acts, aWatch)
+		case p < 86:
+			acts = append(acts, deliver(hx.Pick(r, []int64{1, 1, 2, 3, 9, 0})))
+		case p < 92:
+			tags["watch-fail"] = true
+			acts = append(acts, watchFail(int64(r.Intn(3))))
+		case p < 95:
+			tags["compaction"] = true
+			acts = append(acts, aCompact)
+		case p < 98:
+			// the stream ends, the key space moves on, is compacted, the provider has to list again
+			tags["compaction"] = true
+			tags["watch-fail"] = true
+			acts = append(acts, watchFail(int64(r.Intn(2))), randMut(r, selfID, tags), mdel(r.Int63n(nNodes)), aCompact, aWatch, aGetEval)
+			if r.Intn(2) == 0 {
+				acts = append(acts, randMut(r, selfID, tags))
+			}
+			acts = append(acts, aGetResp, aWatch, deliver(9))
+		default:
+			tags["shutdown-in-flight"] = true
+			acts = append(acts, aShutdown)
+		}
+	}
+	return acts
+}
+
+func generateBoot(cfg *hx.Config, emit func(kind string, ops []hx.T, tags []string)) {
+	r := cfg.Rng
+	thorough := cfg.Tier == "thorough"
+	self := nd(0, true, 1, 10, svc(1, 1))
+	n1 := nd(1, true, 0, 11, svc(1, 2), svc(2, 5))
+	n1b := nd(1, true, 1, 21, svc(1, 2), svc(2, 5)) // re-registration: state and address changed
+	n2 := nd(2, true, 1, 12, svc(2, 3))
+	stale := nd(0, true, 2, 30, svc(3, 6)) // an old registration of the node itself
+	query := hx.C("OQuery")
+
+	// 1. start-up, exhaustive in the small: every sequence of <= L mutations in EVERY position relative to
+	// the evaluation of the listing, its delivery, the registration of the watch and the deliveries
+	alpha := []hx.T{mput(n1), mput(n1b), mdel(1), mput(n2)}
+	L := 2
+	if thorough {
+		L = 3
+	}
+	sequences(alpha, L, func(seq []hx.T) {
+		distribute(seq, 4, func(parts [][]hx.T) {
+			emit("boot-startup-exhaustive", []hx.T{bootOp(self, true, startupScript(parts)), query}, []string{"boot-startup"})
+		})
+	})
+	// the same with records of the node itself in the key space (a stale registration before the listing,
+	// its expiry / the echo of the own registration afterwards), and for a client (StartClient)
+	alphaSelf := []hx.T{mput(stale), mdel(0), mput(n1), mput(self)}
+	Ls := 2
+	sequences(alphaSelf, Ls, func(seq []hx.T) {
+		if len(seq) == 0 {
+			return
+		}
+		distribute(seq, 4, func(parts [][]hx.T) {
+			if !thorough && len(seq) == 2 && len(parts[0])+len(parts[3]) == 0 {
+				return // quick: keep the combinations that touch the listing or the open watch
+			}
+			emit("boot-startup-exhaustive", []hx.T{bootOp(self, true, startupScript(parts)), query}, []string{"boot-startup", "listing-self"})
+		})
+	})
+	Lc := 1
+	if thorough {
+		Lc = 2
+	}
+	sequences([]hx.T{mput(n1), mput(n1b), mdel(1), mput(stale), mdel(0)}, Lc, func(seq []hx.T) {
+		distribute(seq, 4, func(parts [][]hx.T) {
+			emit("boot-startup-exhaustive", []hx.T{bootOp(self, false, startupScript(parts)), query}, []string{"boot-startup", "client-mode"})
+		})
+	})
+
+	// 2. the watch stream ends; what happens to the key space until the next watch is registered; with
+	// and without a compaction in between (then the provider has to list again); a fragment delivered
+	// before the failure; a failing re-listing
+	started := []hx.T{mput(n1), aGetEval, aGetResp, aWatch}
+	opt := func(on bool, a ...hx.T) []hx.T {
+		if on {
+			return a
+		}
+		return nil
+	}
+	gaps := [][]hx.T{nil, {mdel(1), mput(n1)}, {mdel(1), mdel(2)}} // nothing / node 1 expires and comes back / both others expire
+	for v := int64(0); v < 2; v++ {
+		for mask := 0; mask < 16; mask++ {
+			before, compact, afterC, relistGap := mask&1 != 0, mask&2 != 0, mask&4 != 0, mask&8 != 0
+			if !thorough && !compact && (afterC || relistGap) {
+				continue
+			}
+			for gk, gap := range gaps {
+				acts := cat(started, opt(before, mput(n2), mput(n1b), deliver(1)), []hx.T{watchFail(v)},
+					gap, opt(compact, aCompact), opt(afterC, mput(n2)),
+					[]hx.T{aWatch, aGetEval}, opt(relistGap, mput(n1)), []hx.T{aGetResp, aWatch, deliver(9), mdel(2), deliver(9)})
+				tags := []string{"boot-rewatch", "watch-fail"}
+				if compact {
+					tags = append(tags, "compaction")
+				}
+				for _, member := range []bool{true, false} {
+					if !member && !thorough && (mask+gk)%3 != 0 {
+						continue
+					}
+					emit("boot-rewatch-systematic", []hx.T{bootOp(self, member, acts), query}, tags)
+				}
+			}
+		}
+	}
+	emit("boot-rewatch-systematic", []hx.T{bootOp(self, true, cat(started, []hx.T{mput(n2), watchFail(1), mdel(1), aCompact, mput(n1b),
+		aWatch, aGetFail, mdel(2), aGetEval, aGetFail, aGetEval, mput(n2), aGetResp, aWatch, deliver(9)})), query},
+		[]string{"boot-rewatch", "compaction", "get-fail"})
+	emit("boot-rewatch-systematic", []hx.T{bootOp(self, true, []hx.T{mput(n1), aGetEval, aGetFail, aGetEval, aGetResp, aWatch}), query},
+		[]string{"get-fail", "start-fails"})
+
+	// 3. Shutdown while events are in flight, while the listing is fetched again, before the watch exists
+	emit("boot-shutdown-systematic", []hx.T{bootOp(self, true, cat(started, []hx.T{mput(n2), mput(n1b), aShutdown, deliver(1), mdel(2),
+		deliver(9), watchFail(0), mput(n2), aWatch, deliver(9)})), query}, []string{"shutdown-in-flight"})
+	emit("boot-shutdown-systematic", []hx.T{bootOp(self, true, cat(started, []hx.T{watchFail(1), mput(n2), mdel(1), aCompact, mput(n1), aWatch,
+		aShutdown, aGetEval, mput(n1b), aGetResp, aWatch, deliver(9)})), query}, []string{"shutdown-in-flight", "compaction"})
+	emit("boot-shutdown-systematic", []hx.T{bootOp(self, true, []hx.T{mput(n1), aGetEval, aGetResp, aShutdown, aWatch, mput(n2), deliver(9),
+		aShutdown}), query}, []string{"shutdown-in-flight"})
+	emit("boot-shutdown-systematic", []hx.T{bootOp(self, false, cat(started, []hx.T{mput(n2), aShutdown, deliver(9), watchFail(2), aWatch})), query},
+		[]string{"shutdown-in-flight", "client-mode"})
+	emit("boot-shutdown-systematic", []hx.T{bootOp(self, true, []hx.T{mput(n1), aShutdown, aGetEval, aShutdown, aGetResp, aShutdown, aShutdown})},
+		[]string{"shutdown-in-flight"})
+
+	// 4. random schedules
+	nRand := cfg.N
+	if !thorough && nRand > 140 {
+		nRand = 140
+	}
+	for i := 0; i < nRand; i++ {
+		tags := tagset{"boot-random": true}
+		selfID := int64(0)
+		if r.Intn(5) == 0 {
+			selfID = r.Int63n(nNodes)
+		}
+		me := nd(selfID, true, randState(r, tags), 10+selfID, randSvcs(r, selfID, tags)...)
+		member := r.Intn(5) != 0
+		if !member {
+			tags["client-mode"] = true
+		}
+		ops := []hx.T{bootOp(me, member, randScript(r, selfID, tags)), query}
+		if r.Intn(6) == 0 { // followed by an ordinary life: the scripted one must have ended cleanly
+			tags["restart"] = true
+			ops = append(ops, randLife(r, tags, false, false)...)
+		}
+		emit("boot-random", ops, tags.list())
+	}
+	emit("malformed", []hx.T{bootOp(nd(0, true, 1, -2), true, []hx.T{aGetEval, aGetResp}), bootOp(self, true, nil),
+		bootOp(nd(0, true, 1, -1, svc(1, 1)), true, []hx.T{aGetEval, aGetResp, aWatch, mput(n1), deliver(1)}), query}, []string{"start-fails", "addr-nonhost"})
 }
